@@ -143,7 +143,7 @@ def gen_preds(rng, nprocs, depth_prune):
     return lines
 
 
-FUEL = 6000
+FUEL = 1500
 
 
 def gen_scenario(rng, sid, feat=None, strategy=None, vm=None, state_based=True):
